@@ -282,6 +282,40 @@ def dro_adapt_after_solve(ctx, seed):
         ctx.count('dro-history:agree')
 
 
+def dro_exptset_order(ctx, seed):
+    """the expectation sets of an ambiguity set are independent pieces: declaring them in another order is the same set"""
+    from harness import dro_oracle as DO
+    import copy
+    r = np.random.default_rng(seed)
+    for _ in range(20):
+        d = DO.gen(r)
+        if len(d['exps']) >= 2:
+            break
+    else:
+        ctx.count('dro-exptset-order:no-case'); return
+    ctx.search_cases += 1; ctx.evaluations += 1
+    case = {"dro_exptset_seed": seed, "history": "exptset() calls in declared vs reversed order"}
+    d2 = copy.deepcopy(d); d2['exps'] = d2['exps'][::-1]
+    def sol(m):
+        try:
+            return C.solve_model(m)
+        except RuntimeError:
+            return None
+    try:
+        with C.quiet():
+            mA, _ = DO.build(d)
+            mB, _ = DO.build(d2)
+        vA, vB = sol(mA), sol(mB)
+    except C.SkipCase:
+        ctx.count('dro-exptset-order:skipped'); return
+    except Exception as ex:
+        ctx.hit('dro-exptset-order-raises:' + type(ex).__name__, {"error": str(ex)[:200]}, case); return
+    if (vA is None) != (vB is None) or (vA is not None and abs(vA - vB) > 1e-5 * (1 + abs(vB))):
+        ctx.hit('dro-exptset-order-changes-optimum', {"declared_order": vA, "reversed_order": vB}, case)
+    else:
+        ctx.count('dro-exptset-order:agree')
+
+
 def expression_reuse(ctx):
     """using an expression inside one construct does not change what it means elsewhere: `e <= 0.5` written before or
     after `E(maxof(e, ..))` is the same robust constraint"""
@@ -383,6 +417,8 @@ def run(ctx):
         resolve_after_add(ctx, int(ctx.rng.integers(2 ** 31)))
     for k in range(ctx.n(16, 200)):
         dro_adapt_after_solve(ctx, int(ctx.rng.integers(2 ** 31)))
+    for k in range(ctx.n(40, 400)):
+        dro_exptset_order(ctx, int(ctx.rng.integers(2 ** 31)))
     for k in range(ctx.n(60, 1200)):
         r, seed = c01.O_sub(ctx)
         d = O.gen_model(r); d['seed'] = seed; d['late'] = None     # late rvars are C01/C02's scenario; histories here permute steps
@@ -396,6 +432,8 @@ def replay(rp):
         search_one(ctx, case['desc'], case['history_seed'])
     elif 'resolve_seed' in case:
         resolve_after_add(ctx, case['resolve_seed'])
+    elif 'dro_exptset_seed' in case:
+        dro_exptset_order(ctx, case['dro_exptset_seed'])
     elif 'dro_seed' in case:
         dro_adapt_after_solve(ctx, case['dro_seed'])
     elif 'layer' in case:
